@@ -155,12 +155,28 @@ def _(vm, a, ci):
 @trait(('*', 'BufRead', 'read_line'))
 def _(vm, a, ci):
     d = _stream(vm, a[0], 'InStream')
+    from .std_str import S, str_concat
+    # text left in the reader's buffer by an earlier fill_buf / consume user comes first (BufReader semantics)
+    left = None
+    if d.get('pending') is not None: left = d['pending']; d['pending'] = None
+    if d.get('rest') is not None:
+        r_ = d.pop('rest'); left = r_ if left is None else str_concat(vm, left, r_)
+    if left is not None:
+        if not isinstance(left, BStr): raise Unmodelled('read_line after a partial consume of an opaque line')
+        cs = left.chars()
+        vm.ref_set(a[1], str_concat(vm, S(vm, a[1]), left))
+        if cs and isinstance(cs[-1], int) and cs[-1] == 10: return ok(left.nbytes())
+        # the buffered text has no terminator: the reader asks the stream again (end of input in this model)
+        k = d['calls']; d['calls'] += 1
+        io_log(vm).append('in')
+        if d['fail_at'] is not None and k >= d['fail_at']: return err(io_error())
+        if d['pos'] < len(d['lines']): raise Unmodelled('read_line: an unterminated line followed by further input')
+        return ok(left.nbytes())
     k = d['calls']; d['calls'] += 1
     io_log(vm).append('in')
     if d['fail_at'] is not None and k >= d['fail_at']: return err(io_error())
     if d['pos'] >= len(d['lines']): return ok(0)
     line = d['lines'][d['pos']]; d['pos'] += 1
-    from .std_str import S, str_concat
     cur = S(vm, a[1])
     vm.ref_set(a[1], str_concat(vm, cur, line))
     try: n = str_len(vm, line)
